@@ -97,10 +97,13 @@ def _call(k, covn, codes, ign, corr, wtc):
         kw[CKEY] = [[]]
     elif corr == 5:
         kw[CKEY] = [["a", "b"]]
-    elif corr == 10:
+    elif corr == 10 or corr == 12:
         kw[CKEY] = [good_c]
-    if corr in (3, 4, 5, 10):
+    if corr in (3, 4, 5, 10, 12):
         kw[COVKEY] = covn / 4
+    if corr == 12 and not CYC:
+        kw["subpath_constraints_coverage_length"] = 1.0
+        kw["length_attr"] = "len"
     if HAS_STARTS:
         if corr == 6:
             kw["additional_starts"] = ["nope"]
@@ -142,8 +145,10 @@ def _verdict(k, covn, w0, w1, ign, corr, wtc):
         invalid = True
     if k == 0 or k == 1:
         pass                                   # boundary values are singled out so that CrossHair realises them
-    if corr == 10 and (covn <= 0 or covn > 4):
-        invalid = True
+    if (corr == 10 or corr == 12) and (covn <= 0 or covn > 4):
+        invalid = True                          # coverage outside (0,1] -- also when a length coverage is given
+    if corr == 12 and (not CYC) and covn < 4:
+        invalid = True                          # documented: coverage and length coverage cannot both be set
     if covn == 0 or covn == 4 or covn == 5:
         pass
     if (not COVER) and wtc == 2:
@@ -156,7 +161,7 @@ def _verdict(k, covn, w0, w1, ign, corr, wtc):
             invalid = True                     # negative (-1) or missing (-2) weight on a non-ignored edge
         if codes[j] == -2 or codes[j] == 0:
             pass
-    rk, rc, r0, r1, ri, rcorr, rw = _conc(k, -1, 2), _conc(covn, -1, 5), _conc(w0, -2, 3), _conc(w1, -2, 3), _conc(ign, -1, 1), _conc(corr, 0, 11), _conc(wtc, 0, 2)
+    rk, rc, r0, r1, ri, rcorr, rw = _conc(k, -1, 2), _conc(covn, -1, 5), _conc(w0, -2, 3), _conc(w1, -2, 3), _conc(ign, -1, 1), _conc(corr, 0, 12), _conc(wtc, 0, 2)
     with NoTracing():
         G = _build([r0, r1], rcorr)
         if FLOWDEC and not invalid and ri < 0 and not COVER:
@@ -188,17 +193,53 @@ def check_ignore(ign: int, w0: int, w1: int) -> bool:
     """
     return _verdict(1, 4, w0, w1, ign, 0, 0)
 
-def check_structural(corr: int, k: int, w0: int) -> bool:
+def check_structural(corr: int, k: int, w0: int, covn: int) -> bool:
     """
-    pre: 0 <= corr <= 11
+    pre: 0 <= corr <= 12
     pre: -1 <= k <= 2
     pre: -2 <= w0 <= 3
+    pre: 3 <= covn <= 5
     post: _
     """
-    return _verdict(k, 4, w0, 3, -1, corr, 0)
+    return _verdict(k, covn, w0, 3, -1, corr, 0)
 
 def check(k: int, covn: int, w0: int, w1: int, ign: int, corr: int, wtc: int) -> bool:
     return _verdict(k, covn, w0, w1, ign, corr, wtc)
+
+def check_reuse(steps: List[int]) -> bool:
+    """
+    pre: len(steps) == 3
+    pre: all(0 <= s <= 1 for s in steps)
+    post: _
+    """
+    # the same graph object is edited in place between constructions: 1 = add the offending edge (cycle for DAG models /
+    # back edge t->s that removes every source and sink for cyclic models), 0 = remove it again
+    st = [_conc(s, 0, 1) for s in steps]
+    with NoTracing():
+        G = _build([3, 3] if not CYC else [2, 2], 0)
+        bad_edge = ("t", "s") if CYC else ("d", "a")
+        kw = dict()
+        if KMODEL:
+            kw["k"] = 2
+        if not COVER:
+            kw["weight_type"] = int
+        cls = getattr(fp, CLS)
+        for s in st:
+            if s == 1 and not G.has_edge(*bad_edge):
+                G.add_edge(bad_edge[0], bad_edge[1], flow=2 if CYC else 5)
+            if s == 0 and G.has_edge(*bad_edge):
+                G.remove_edge(*bad_edge)
+            try:
+                m = cls(G, **kw) if COVER else cls(G, "flow", **kw)
+                m.solve()
+                outcome = "ok"
+            except ValueError:
+                outcome = "ValueError"
+            except Exception as e:
+                outcome = type(e).__name__
+            if outcome != ("ValueError" if s == 1 else "ok"):
+                return False
+    return True
 
 check(1, 4, 3, 3, -1, 0, 0)
 '''
@@ -220,7 +261,7 @@ CLASSES = {
 
 
 def gen_tasks(tier, seed):
-    tasks = [{"cls": c, "fn": fn, **v} for fn in ("check_structural", "check_numeric", "check_ignore") for c, v in CLASSES.items()]
+    tasks = [{"cls": c, "fn": fn, **v} for fn in ("check_structural", "check_numeric", "check_ignore", "check_reuse") for c, v in CLASSES.items()]
     for i, t in enumerate(tasks):
         t["tid"] = i
     return tasks
@@ -270,9 +311,11 @@ def _normalise(call):
     if fn == "check_ignore":
         ign, w0, w1 = pos
         return ("check", [1, 4, w0, w1, ign, 0, 0], {})
+    if fn == "check_reuse":
+        return ("check_reuse", list(pos), {})
     if fn == "check_structural":
-        corr, k, w0 = pos
-        return ("check", [k, 4, w0, 3, -1, corr, 0], {})
+        corr, k, w0, covn = pos
+        return ("check", [k, covn, w0, 3, -1, corr, 0], {})
     return call
 
 
@@ -280,6 +323,8 @@ def _diag(task, call):
     if not call:
         return "counterexample"
     fn, pos, kw = call
+    if fn == "check_reuse":
+        return "graph-object-reused-after-in-place-edit"
     names = ["k", "covn", "w0", "w1", "ign", "corr", "wtc"]
     a = dict(zip(names, pos))
     a.update(kw)
@@ -302,7 +347,7 @@ def _diag(task, call):
                     6: "unknown-additional-start", 7: "unknown-additional-end", 9: "unsupported-origin"}[a["corr"]])
     if task["kmodel"] and a["k"] <= 0:
         why.append("non-positive-k")
-    if a["corr"] == 10 and (a["covn"] <= 0 or a["covn"] > 4):
+    if a["corr"] in (10, 12) and (a["covn"] <= 0 or a["covn"] > 4):
         why.append("coverage-outside-(0,1]")
     if not task["cover"] and a["wtc"] == 2:
         why.append("unsupported-weight-type")
@@ -340,5 +385,5 @@ def main(tier, seed):
         t["timeout"] = 50 if tier == "quick" else 600
     acc = core.run_tasks(run_task, tasks, deadline_s=175 if tier == "quick" else 2000)
     acc["evaluations"] = max(acc["evaluations"], len(tasks))
-    bounds = {"k": "-1..2", "coverage": "{-1..5}/4", "weight_codes": "-2..3", "structural_variants": 12}
+    bounds = {"k": "-1..2", "coverage": "{-1..5}/4", "weight_codes": "-2..3", "structural_variants": 13}
     return core.finish(PID, tier, seed, LEVEL, acc, t0, RULE, ASSUMPTIONS, bounds, replay)
